@@ -263,6 +263,27 @@ func init() {
 		},
 		B + "FillBytes": func(r *Run, fn *ssa.Function, a []Value) Value {
 			x := r.bigCell(a[0], false)
+			if x.sym != nil {
+				// Int mode: big-endian digits of the magnitude (non-negative values only)
+				s := a[1].(*SliceV)
+				v := x.sym
+				if v.lo.Sign() < 0 {
+					if r.branch(r.ts.ILt(v, r.ts.IConst(bigZero))) {
+						panic(unsupported("FillBytes of a possibly negative big.Int"))
+					}
+					r.ts.refine(v, bigZero, v.hi)
+				}
+				if v.hi.Cmp(pow2(8*s.len)) >= 0 {
+					if !r.branch(r.ts.ILt(v, r.ts.IConst(pow2(8*s.len)))) {
+						r.goPanic("math/big: buffer too small to fit value")
+					}
+				}
+				arr := r.sliceArrW(s)
+				for i := 0; i < s.len; i++ {
+					arr.e[s.off+i] = r.ts.IModC(r.ts.IDivC(v, pow2(8*(s.len-1-i))), pow2(8))
+				}
+				return s
+			}
 			r.needConcrete(x)
 			s := a[1].(*SliceV)
 			if len(x.v.Bytes()) > s.len {
